@@ -200,6 +200,8 @@ def fresh(ctx, o, eff: Effects):
                 o.refute(calc, c, c.args[3], f"the memo handed to the pass is `{src(memo)}`, not a list allocated by this call: tasks scheduled "
                                              f"by an earlier calc are skipped")
         # stores on self outside __init__
+        if S is BOTH[0]:
+            sched.shared_mutable_defaults(ctx, o, _reach_core(ctx, eff), "ledger / memo state")
         for key in ('calc', 'pass_', 'search', 'fill', 'prepare'):
             f = prog.funcs.get(S[key]) if key == 'prepare' else prog.func(S[key])
             if f is None:
